@@ -6,7 +6,7 @@ PROP = "C15"
 THEOREMS = ["fork_prefix", "fork_basis_pinned", "fork_heads_fresh", "fork_atomic", "lane_isolation",
             "strands_stay_wellformed", "plan_pure_deterministic", "settle_atomic", "never_overwrite",
             "import_takes_strand_values", "parent_unchanged_off_its_writes", "parent_stays_verifiable",
-            "histories_stay_coherent"]
+            "histories_stay_coherent", "initial_world_wellformed"]
 PRE = ("From Coq Require Import List NArith.\nFrom Echo Require Import Model.Strand.\n"
        "Import ListNotations.\nOpen Scope N_scope.\n")
 NK, NPRE = 6, 3
